@@ -38,6 +38,11 @@ def rationalize(x, single: bool = False) -> Fraction:
     f = Fraction(x)
     if f.denominator == 1:
         return f
+    if not single:
+        r = repr(x)
+        digits = r.split("e")[0].replace("-", "").replace(".", "").lstrip("0")
+        if len(digits) <= 12:
+            return Fraction(r)  # the decimal literal the float was written as
     tol = 2e-7 if single else 1e-13
     for lim in (64, 1000, 10 ** 6):
         g = f.limit_denominator(lim)
